@@ -240,11 +240,12 @@ Section P.
   Proof.
     intros s. destruct s as [m rn ca cc tm fl aw sw nw ns nw' na nc pd pp cn tt nf]. cbn [ms conns pend now failed].
     split.
-    - intros -> j k Hn. unfold Model.step. cbn [conns]. rewrite Hn. unfold Model.pre, Model.deliver, Model.deliver1. cbn.
-      destruct (mem k pp); cbn; auto.
+    - intros -> j k Hn. unfold Model.step. cbn [conns]. rewrite Hn. cbn [preps].
+      destruct (mem k pp); unfold Model.pre, Model.deliver, Model.deliver1; cbn; repeat split; reflexivity.
     - intros -> Hp. unfold Model.step. cbn [pend]. destruct (last_opt pd) eqn:E.
-      + unfold Model.deliver, Model.deliver1. cbn. auto.
-      + exfalso. clear -E Hp. induction pd as [|x [|y r] IH]; cbn in E; try congruence. apply IH; congruence.
+      + unfold Model.deliver, Model.deliver1. cbn. repeat split; reflexivity.
+      + exfalso. destruct pd as [|x r]; [congruence|]. clear Hp. revert x E.
+        induction r as [|y r IH]; intros x E; cbn in E; [discriminate | exact (IH y E)].
   Qed.
 End P.
 
